@@ -2391,6 +2391,11 @@ class ContractionTree:
         # some of these might be unpicklable
         tree.contraction_cores.clear()
 
+        if tree.max_size() <= target_size:
+            # already small enough, like ``slice_and_reconfigure`` there is
+            # nothing to do (and possibly nothing left to slice at all)
+            return tree
+
         # candidate trees
         num_keep = max(1, int(num_trees * restart_fraction))
 
